@@ -4,7 +4,8 @@ import ast
 from sa.absval import AbsEval, Const, Kind
 from sa.expr import txt, match, atom, unawait, linear, int_ordering
 from sa.model import AnalysisError
-from .common import assume_from
+from sa.cfg import canon_while
+from .common import assume_from, has_guard, or_default
 from .seq import PV, guards_matching, own_nodes, definite_index_error
 from .sockrules import pconsts, packet_ctor, evaluator
 
@@ -274,7 +275,8 @@ def disconnect_rules(A, cf, rule):
                           'second disconnect event')
         if len(trig) == 1:
             c = unawait(v.ev[trig[0][0]].expr)
-            A.check(len(c.args) == 2 and txt(c.args[1]) == 'reason or self.reason.CLIENT_DISCONNECT'
+            A.check(len(c.args) == 2 and
+                    or_default(p, txt(c.args[1]), 'reason', 'self.reason.CLIENT_DISCONNECT')
                     and any(k.arg == 'run_async' and match('False', k.value) is not None
                             for k in c.keywords), rule + '.reason',
                     '%s disconnect() reports the given reason, by default client disconnect'
@@ -403,7 +405,7 @@ def break_release_rule(A, cf, rule):
         whiles = [n for n in own_nodes(fi) if isinstance(n, ast.While)]
         n_b = 0
         for w in whiles:
-            for blk in _blocks(w):
+            for blk in _blocks(canon_while(w)):
                 for i, st in enumerate(blk):
                     if isinstance(st, ast.Break):
                         n_b += 1
@@ -592,6 +594,16 @@ def write_loop_rules(A, cf, rule, bound_rule=None):
     A.floor(rule, '%s write loop websocket sends' % name, n_ws, 2)
 
 
+def _sep_ok(p, sep):
+    """'&' exactly when the caller's URL has a query string of its own."""
+    q = 'urllib.parse.urlparse(url).query'
+    for pol, want in ((True, "'&'"), (False, "''")):
+        if has_guard(p, q, pol) or has_guard(p, q + " == ''", not pol) or \
+                has_guard(p, q + " != ''", pol):
+            return sep == want
+    return False
+
+
 def url_rule(A, rule):
     fi = A.func('base_client.BaseClient._get_engineio_url')
     cls = fi.cls
@@ -624,7 +636,7 @@ def url_rule(A, rule):
                         kw.get('query') == 'urllib.parse.urlparse(url).query' and \
                         kw.get('path') == "engineio_path.strip('/')" and \
                         kw.get('transport') == 'transport' and \
-                        kw.get('sep') == "'&' if urllib.parse.urlparse(url).query else ''"
+                        _sep_ok(p, kw.get('sep'))
                 A.check(bool(ok), rule + '.url', 'the %s URL of a%s endpoint is %s://<netloc>/'
                         '<path>/?<query>[&]transport=%s&EIO=4' % (tr, ' secure' if secure else 'n insecure',
                                                                    base + ('s' if secure else ''), tr),
